@@ -34,6 +34,10 @@ def cases(tier, seed):
     out = []
     for c in C26.cases(tier, seed):
         c = dict(c)
+        if c.get("chain"):
+            c["conf"] = False
+            out.append(c)
+            continue
         if tier == "thorough" and c["k"] == 3 and not (c["ax"] == 0 and (c["grid"] == "uniform" or (c["grid"] == "rect_distinct" and c["tmpl"] in (0, 3)))):
             continue  # 36 schedules per 3-constraint system: non-uniform grids are covered completely for k<=2 (see bounds)
         if tier == "thorough" and c["with_c"] and (c["grid"] == "rect_seed" or c["tmpl"] % 2 or (c["k"] == 2 and c["ax"] != 0)):
